@@ -23,6 +23,9 @@ MANIFEST = dict(
          "alias line, multi-line headers — the generator reading only the text yields a compiling client whose calls send that request; C06_cook_text, "
          "C06_headers_text); the interface-level glue of cookClient in closed form for EVERY interface (C06_generate_closed: a Fatal ends the run, otherwise one "
          "generated method per method whose directive is read, in order; C06_method_one_plan; C06_cooked_total: cooking never fails inside the region); "
+         "the walk over the ENTRIES of the interface type as go/ast presents them (Rest.generateAst): where the embedded shoot.RestClient[T] with the "
+         "headers= comment stands among the methods is irrelevant (C06_embed_position, every entry list), a parameter group `a, b T` is `a T, b T` and an "
+         "unnamed parameter is none (C06_param_groups), and the entry level meets the interface level (C06_ast_iface); "
          "duplicate aliases are rejected (C06_dup_alias_rejected); when the chain retries, every attempt is that request under the caller's context (C06_attempt, C06_attempt_identity). "
          "Three finding regions with witness theorems (F_ptrDict, F_nilStructDeref pinned by the rest golden; F_aliasInPath: a path segment spelling `alias=` is read as the alias directive); eight former ones (the last: F_retryBody, 371dec3) were repaired "
          "in /repo and are stated as *_fixed / asserted as WF. Tied to the code (a) by generating clients with the rebuilt `shoot rest` from random interfaces, compiling "
@@ -56,6 +59,11 @@ def make_case(cid, iface, calls):
         import zlib
         h = zlib.crc32(("pos|%s|%s" % (iface["name"], "|".join(m["name"] + m["path"] for m in iface["methods"]))).encode())
         iface["embedpos"] = (h // 2) % (len(iface["methods"]) + 1) if h % 2 else 0
+    for m in iface["methods"]:
+        if "grouped" not in m:
+            # adjacent parameters of one type written as one entry `a, b T` (go/ast: ONE field with two names) in about half of the methods
+            import zlib
+            m["grouped"] = zlib.crc32(("grp|%s|%s" % (m["name"], m["path"])).encode()) % 2 == 0
     files = restgen.render_package("cs", [iface], modpath=modpath, layout=iface["layout"])
     args = ["rest", "-type=" + iface["name"]]
     blob = json.dumps({"iface": iface, "calls": [{k: v for k, v in c.items() if k != "m"} for c in calls]})
@@ -155,6 +163,18 @@ def shaped(ctx, g):
         i = g.iface(name="Client", nmethods=3, ctx=True)
         i["headers"], i["hbreaks"], i["embedpos"] = [("X-Tenant-Id", "t7"), ("Accept", "text/plain")], ([0] if vi else []), pos
         out.append(("embedpos%d" % vi, i, calls_for(g, i, 1)))
+    # parameter groups `a, b T`: a path parameter and a query parameter in ONE entry, a pointer group, a group behind the context
+    for vi, verb in enumerate(("GET", "DELETE", "POST")):
+        i = g.iface(name="Client", nmethods=1, ctx=True, verb=verb, struct=False, dict=False, nscalar=0, nph=0)
+        m = i["methods"][0]
+        m.update({"path": "/orgs/{org}/users/{id}", "quoted": True, "alias": [("userID", "id")], "tail": "", "aliastail": "", "grouped": True,
+                  "params": [{"name": "org", "kind": "scalar", "type": "string", "ptr": False, "role": "path"},
+                             {"name": "userID", "kind": "scalar", "type": "string", "ptr": False, "role": "path"},
+                             {"name": "q", "kind": "scalar", "type": "string", "ptr": False, "role": "query"},
+                             {"name": "page", "kind": "scalar", "type": "int", "ptr": True, "role": "query"},
+                             {"name": "size", "kind": "scalar", "type": "int", "ptr": True, "role": "query"}]})
+        i["structs"] = []
+        out.append(("groups%d" % vi, i, calls_for(g, i, 3)))
     # multi-line headers directive, non-canonical keys (WF)
     i = g.iface(name="Client", nmethods=2, ctx=True)
     i["headers"], i["hbreaks"] = [("Authorization", "Bearer abc"), ("x-env", "test"), ("Accept", "text/plain"), ("X-B", "1")], [0, 2]
@@ -542,6 +562,8 @@ def features(c):
         if m.get("tail"):
             f.append("directive-tail")
         f.append("result:" + m["result"]["shape"])
+        if any(len(names) > 1 for names, _t, _p in restgen.param_groups(m)):
+            f.append("param-group:" + "+".join(sorted(set(p["kind"] + ("-ptr" if p.get("ptr") else "") for names, _t, p in restgen.param_groups(m) if len(names) > 1))))
         for p in m["params"]:
             f.append("param:" + p["kind"] + ("-ptr" if p.get("ptr") else ""))
             if p["kind"] == "struct":
@@ -598,7 +620,7 @@ def run(ctx, obl):
                 "segments with punctuation, optional `;` tails; alias directives for path and query parameters; scalar and pointer-to-scalar parameters "
                 "of six types; struct / pointer-to-struct parameters declared in the same file or in another package with alias tags, pointer fields and "
                 "unexported fields with getters; map parameters of three types; all result shapes; optional interface headers on the embedded shoot.RestClient[T], which stands "
-                "first, between or after the methods; context parameter at any "
+                "first, between or after the methods; adjacent parameters of one type written as one entry `a, b T` in half of the methods; context parameter at any "
                 "position or absent), each rendered to a package, `shoot rest` run, the client compiled, obtained with shoot.NewRest and pointed at a "
                 "recording RoundTripper; 3-4 argument vectors per method incl. nil pointers and URL-unsafe strings; plus one shaped interface per finding "
                 "region and per verb. The model's symbolic url.JoinPath / Values.Encode / Header.Add are evaluated by the real functions (harness cmd/rtconf ext), "
